@@ -14,9 +14,26 @@ regenerates SrcAsh.lean; these theorems are then re-checked against what the cod
 -/
 import BV.Gen.SrcAsh
 import BV.Model.Ash.Frame
+import Mathlib.Tactic.IntervalCases
 namespace BV.Proofs.Src.Ash
 open BV.Py BV.Gen.Ash
 open BV.Src.Ash (Frame FrameCls)
+
+/-- split a goal about a byte into its 256 values (each closed by evaluation): keeps the proofs below independent of
+how the source spells a per-byte computation (masks, shifts, operand order, branch order, local names) -/
+macro "byte_cases " c:ident : tactic =>
+  `(tactic| (obtain ⟨n, hn, hb⟩ : ∃ n, n < 256 ∧ $c = UInt8.ofNat n := ⟨($c).toNat, ($c).toNat_lt, by simp⟩
+             subst hb
+             interval_cases n <;> first | rfl | decide | simp))
+
+/-- the same, for a loop body that also carries the output built so far: evaluation alone cannot reassociate
+`(out ++ a) ++ b`, so the listed definitions are unfolded and the result normalised -/
+macro "byte_cases " c:ident " unfolding " "[" ds:Lean.Parser.Tactic.simpLemma,* "]" : tactic =>
+  `(tactic| (obtain ⟨n, hn, hb⟩ : ∃ n, n < 256 ∧ $c = UInt8.ofNat n := ⟨($c).toNat, ($c).toNat_lt, by simp⟩
+             subst hb
+             interval_cases n <;> first | rfl | decide |
+               (simp [$ds,*, bytesOf, bind, Except.bind, pure, Except.pure, throw, throwThe, MonadExceptOf.throw,
+                 BV.Ash.isReserved, reservedBytes, resEscape] <;> decide)))
 
 theorem reserved_bytes_eq : BV.Src.Ash.C_RESERVED_BYTES = reservedBytes.map UInt8.toNat := by decide
 
@@ -39,8 +56,7 @@ theorem t3 : ∀ b : UInt8, bytesOf [b.toNat] = .ok [b] := by
 theorem stuff_body (b : UInt8) (out : List UInt8) :
     BV.Src.Ash.stuff_bytes.loop1 out b.toNat =
       .ok (.next (out ++ (if BV.Ash.isReserved b then [resEscape, b ^^^ 0x20] else [b]))) := by
-  simp only [BV.Src.Ash.stuff_bytes.loop1, t1, t2, t3]
-  cases h : BV.Ash.isReserved b <;> simp [bind, Except.bind, pure, Except.pure]
+  byte_cases b unfolding [BV.Src.Ash.stuff_bytes.loop1, BV.Src.Ash.C_RESERVED_BYTES]
 
 theorem stuff_loop (bs : List UInt8) (out : List UInt8) :
     forE BV.Src.Ash.stuff_bytes.loop1 (ints bs) out = .ok (.done (out ++ BV.Ash.stuff bs) false) := by
@@ -71,9 +87,7 @@ theorem unstuff_body (b : UInt8) (out : List UInt8) (esc : Bool) :
       if esc then
         (if BV.Ash.isReserved (b ^^^ 0x20) then .ok (.next (out ++ [b ^^^ 0x20], false)) else .error (.raised "ParsingError"))
       else if b == resEscape then .ok (.next (out, true)) else .ok (.next (out ++ [b], false)) := by
-  simp only [BV.Src.Ash.unstuff_bytes.loop1, t3, t4, t5, t6]
-  cases esc <;> cases h : BV.Ash.isReserved (b ^^^ 0x20) <;> cases h2 : (b == resEscape) <;>
-    simp [bind, Except.bind, pure, Except.pure, throw, throwThe, MonadExceptOf.throw]
+  cases esc <;> byte_cases b unfolding [BV.Src.Ash.unstuff_bytes.loop1, BV.Src.Ash.C_RESERVED_BYTES]
 
 theorem unstuff_loop (bs : List UInt8) (out : List UInt8) (esc : Bool) :
     (forE BV.Src.Ash.unstuff_bytes.loop1 (ints bs) (out, esc)).map (fun r => (LoopRes.noRet r).1.1) =
@@ -213,18 +227,37 @@ theorem to_bytes_eq (f : BV.Ash.Frame) (hw : f.WF) : Frame.to_bytes (ofM f) = .o
   cases f with
   | data f r a p =>
     obtain ⟨hf, ha, hp⟩ := hw
-    have := ctl_data ⟨f, hf⟩ r ⟨a, ha⟩
-    simp only [Nat.zero_or, Nat.shiftLeft_zero] at this
-    simp [Frame.to_bytes, ofM, BV.Src.Ash.DataFrame.to_bytes, this, randomize_eq, hp, append_crc_eq, BV.Ash.encode,
-      bind, Except.bind]
+    simp only [Frame.to_bytes, ofM, BV.Src.Ash.DataFrame.to_bytes, randomize_eq, hp, append_crc_eq, ↓reduceIte, bind,
+      Except.bind, BV.Ash.encode]
+    -- the control byte: whatever expression the source builds it with, compared for every (frmNum, reTx, ackNum)
+    generalize hx : bytesOf _ = x
+    have : x = .ok [BV.Ash.ctlData f r a] := by
+      rw [← hx]; clear hx hp
+      obtain ⟨f, rfl⟩ : ∃ f' : Fin 8, f'.val = f := ⟨⟨f, hf⟩, rfl⟩
+      obtain ⟨a, rfl⟩ : ∃ a' : Fin 8, a'.val = a := ⟨⟨a, ha⟩, rfl⟩
+      clear hf ha
+      revert f a r; decide +kernel
+    subst this; simp
   | ack res n a =>
-    have := ctl_ack res n ⟨a, hw⟩
-    simp only [Nat.zero_or, Nat.shiftLeft_zero] at this
-    simp [Frame.to_bytes, ofM, BV.Src.Ash.AckFrame.to_bytes, this, append_crc_eq, BV.Ash.encode, bind, Except.bind]
+    have ha : a < 8 := hw
+    simp only [Frame.to_bytes, ofM, BV.Src.Ash.AckFrame.to_bytes, append_crc_eq, bind, Except.bind, BV.Ash.encode]
+    generalize hx : bytesOf _ = x
+    have : x = .ok [BV.Ash.ctlAck res n a] := by
+      rw [← hx]; clear hx
+      obtain ⟨a, rfl⟩ : ∃ a' : Fin 8, a'.val = a := ⟨⟨a, ha⟩, rfl⟩
+      clear ha hw
+      revert res n a; decide +kernel
+    subst this; simp
   | nak res n a =>
-    have := ctl_nak res n ⟨a, hw⟩
-    simp only [Nat.zero_or, Nat.shiftLeft_zero] at this
-    simp [Frame.to_bytes, ofM, BV.Src.Ash.NakFrame.to_bytes, this, append_crc_eq, BV.Ash.encode, bind, Except.bind]
+    have ha : a < 8 := hw
+    simp only [Frame.to_bytes, ofM, BV.Src.Ash.NakFrame.to_bytes, append_crc_eq, bind, Except.bind, BV.Ash.encode]
+    generalize hx : bytesOf _ = x
+    have : x = .ok [BV.Ash.ctlNak res n a] := by
+      rw [← hx]; clear hx
+      obtain ⟨a, rfl⟩ : ∃ a' : Fin 8, a'.val = a := ⟨⟨a, ha⟩, rfl⟩
+      clear ha hw
+      revert res n a; decide +kernel
+    subst this; simp
   | rst =>
     have : bytesOf [192] = .ok [rstMaskValue] := by decide
     simp [Frame.to_bytes, ofM, BV.Src.Ash.RstFrame.to_bytes, this, append_crc_eq, BV.Ash.encode, bind, Except.bind]
@@ -273,10 +306,10 @@ theorem from_bytes_data (d : List UInt8) :
   | error e => simp [unwrapRes, bind, Except.bind, Except.toOption]
   | ok p =>
     obtain ⟨c, rest⟩ := p
-    obtain ⟨b1, b2, b3, -⟩ := bits c
     by_cases h : rest.length ≤ pseudoRandom.length
     · have h' : ¬ rest.length > pseudoRandom.length := by omega
-      simp [unwrapRes, bind, Except.bind, Except.toOption, h, h', toM, b1, b2, b3, pure, Except.pure]
+      -- the bit fields: whatever masks and shifts the source uses, they are compared on all 256 control bytes
+      simp [unwrapRes, bind, Except.bind, Except.toOption, h, h', toM, pure, Except.pure] <;> byte_cases c
     · have h' : rest.length > pseudoRandom.length := by omega
       simp [unwrapRes, bind, Except.bind, Except.toOption, h, h']
 
@@ -290,8 +323,7 @@ theorem from_bytes_ack (d : List UInt8) :
   | error e => simp [unwrapRes, bind, Except.bind, Except.toOption]
   | ok p =>
     obtain ⟨c, rest⟩ := p
-    obtain ⟨-, b2, b3, b4⟩ := bits c
-    simp [unwrapRes, bind, Except.bind, Except.toOption, toM, b2, b3, b4, pure, Except.pure]
+    simp [unwrapRes, bind, Except.bind, Except.toOption, toM, pure, Except.pure] <;> byte_cases c
 
 theorem from_bytes_nak (d : List UInt8) :
     (BV.Src.Ash.NakFrame.from_bytes d).toOption.map toM =
@@ -303,8 +335,7 @@ theorem from_bytes_nak (d : List UInt8) :
   | error e => simp [unwrapRes, bind, Except.bind, Except.toOption]
   | ok p =>
     obtain ⟨c, rest⟩ := p
-    obtain ⟨-, b2, b3, b4⟩ := bits c
-    simp [unwrapRes, bind, Except.bind, Except.toOption, toM, b2, b3, b4, pure, Except.pure]
+    simp [unwrapRes, bind, Except.bind, Except.toOption, toM, pure, Except.pure] <;> byte_cases c
 
 theorem from_bytes_rst (d : List UInt8) :
     (BV.Src.Ash.RstFrame.from_bytes d).toOption.map toM =
